@@ -135,7 +135,7 @@ class ElabWorld(World):
                 p = hw.Pins(ctx)
                 for t in range(config["burst"]):
                     for i, (nm, s) in enumerate(b.inputs):
-                        p.set(s, cval(config["stim"], i, t, len(s)))
+                        p.drive_input("C19", f"{cls_name}.{nm}", s, cval(config["stim"], i, t, len(s)))
                     trace.append(tuple(p.get(s) for _, s in b.outputs))
                     await ctx.tick()
             hw.run_tb(sim, tb)
